@@ -228,6 +228,40 @@ def run_case(cs):
         _compare(cs, "recorded", f, shape, wants[f], recorded.get(f, {}), {"nested": nested, "tree": sorted(tree)[:20], "patterns": pats, "formats": formats})
     if f0 in recorded and got and recorded[f0] and {k: v for k, v in recorded[f0].items() if k in got} != {k: v for k, v in got.items() if k in recorded[f0]}:
         cs.violation("recorded-differs-from-printed", {"kind": "recorded-vs-printed", "format": f0}, {})
+    # ---------- a later generation after a content edit, in other formats: the recorded hashes still follow the definition
+    edit_files = sorted(k for k, v in tree.items() if v is not None and ignoreref.match(allpat, k) is False)
+    if edit_files and rng.random() < 0.4:
+        victim = rng.choice(edit_files)
+        tree[victim] = tree[victim] + b"#edited"
+        with open(os.path.join(root, victim), "wb") as f:
+            f.write(tree[victim])
+        fm2 = world.gen_formats(rng)
+        r, new, before, after = hist.create(root, fm2, [x for p in pats for x in ("-i", p)])
+        cs.evaluated()
+        cs.count("create_after_edit")
+        if r.internal or r.exit != 11:
+            cs.violation(classify.internal_key(r) if r.internal else "create-after-edit-exit", {"kind": "create-after-edit", "exit": r.exit, "exc": r.exc_class}, r.brief())
+        else:
+            wants2 = {f: _expected(tree, allpat, f) for f in set(fm2)}
+            rec2 = {f: {} for f in set(fm2)}
+            for h, names in new.items():
+                for n in names:
+                    if not n.endswith(".mhl"):
+                        continue
+                    m = xmlread.read_manifest_bytes(after[h][n])
+                    rh = m["processinfo"]["roothash"]
+                    if rh is not None:
+                        sm = {f: v for f, v, _, _ in rh["structure"]}
+                        for f, v, _, _ in rh["content"]:
+                            _put(cs, rec2, f, h, (v, sm.get(f)), "roothash")
+                    for rec in m["hashes"]:
+                        if rec["kind"] == "dir":
+                            rel = rec["path"] if h == "." else h + "/" + rec["path"]
+                            sm = {f: v for f, v, _, _ in rec["structure"]}
+                            for f, v, _, _ in rec["content"]:
+                                _put(cs, rec2, f, rel, (v, sm.get(f)), "directoryhash")
+            for f in set(fm2):
+                _compare(cs, "recorded-after-edit", f, shape, wants2[f], rec2.get(f, {}), {"victim": victim, "formats_before": formats, "formats_now": fm2, "nested": nested})
     cs.count("shape:" + shape)
     cs.count("maxfanout>=12" if shape == "wide" else "fanout<12")
     cs.sample({"shape": shape, "formats": formats, "patterns": pats, "relation": rel_kind, "nested": nested, "dirs": len(want)})
